@@ -14,9 +14,10 @@ CHECKS = {
                 text="Every stage output of the real pipeline is exported and a Lean decider checks a simulation between the input graph and the "
                      "hierarchy for both walks; Scfg.C01.name_walk_sound / region_walk_sound (kernel-checked) turn one successful check into "
                      "trace equality for ALL decision sequences of any length.", ref="§7 C01"),
-    "C02": dict(cat="translation_validation", tech="Lean 4 model of abort guards + exhaustive small-scope runs of the real pipeline",
-                text="The real pipeline is run on every closed CFG of the exhaustive scope and on seeded larger ones; any exception or time-out is a violation "
-                     "with the graph as replay.", ref="§7 C02"),
+    "C02": dict(cat="translation_validation", tech="Lean 4 executable model of the whole restructuring pipeline (abort sites included) compared dump-for-dump with the real result of every stage; exhaustive small-scope runs of the real pipeline under a timer",
+                text="The real pipeline is run on every closed CFG of the exhaustive scope and on seeded larger ones under a per-stage timer; any exception or time-out is a violation with the graph as replay. "
+                     "Scfg/Model/Pipeline.lean models join_returns, loop_restructure_helper, extract_region, update_exiting, restructure_branch and their helpers on the flat hierarchy including every assertion / KeyError site; after every stage the real hierarchy (names, dict order per container, tables, assignments, name-generator counters) must equal the model's.", ref="§7 C02",
+                note="Trusted: Lean compiler for the model, exporter. No a-priori theorem that the model never aborts on closed CFGs (false before the repair 6bdd8e3); the quantifier over graphs is by enumeration (all closed CFGs ≤4 / ≤5 nodes + seeded larger ones)."),
     "C03": dict(cat="translation_validation", tech="Lean 4: verified structuredness decider (ranks_acyclic, s2_sound, s3_sound) on real outputs",
                 text="The final hierarchy is judged by the Lean decider `structured`; Scfg.C03.s1_acyclic / s2_sound / s3_sound prove what a true answer means "
                      "(no cycle of any length at any level, latch/back-edge shape, head/branch/tail shape).", ref="§7 C03"),
